@@ -10,38 +10,11 @@ func init() {
 	vHarness["C08_label_probe"] = VerifHarness_C08_label_probe
 }
 
-// vCompileTokens is CompileWarrior from the token stream on (the real scan /
-// expand pass loop, parser and compiler; the lexer is C05's subject).
+// vCompileTokens is the real CompileWarrior on a reader whose lexing yields
+// the given tokens (the lexer itself is C05's subject): the scan / expand
+// pass loop, parser and compiler all run from CompileWarrior's own code.
 func vCompileTokens(tokens []token, config SimulatorConfig) (WarriorData, error) {
-	depth := 0
-	for {
-		symbols, forSeen, err := ScanInput(newBufTokenReader(tokens))
-		if err != nil {
-			return WarriorData{}, err
-		}
-		if !forSeen {
-			break
-		}
-		expanded, err := ForExpand(newBufTokenReader(tokens), symbols)
-		if err != nil {
-			return WarriorData{}, err
-		}
-		tokens = expanded
-		depth++
-		if depth > 12 {
-			return WarriorData{}, vErr("for loop depth exceeded")
-		}
-	}
-	p := newParser(newBufTokenReader(tokens))
-	lines, meta, err := p.parse()
-	if err != nil {
-		return WarriorData{}, err
-	}
-	c, err := newCompiler(lines, meta, config)
-	if err != nil {
-		return WarriorData{}, err
-	}
-	return c.compile()
+	return CompileWarrior(vTokenReader(tokens), config)
 }
 
 type vError struct{ s string }
@@ -109,8 +82,13 @@ func VerifHarness_C08_family() {
 	f = append(f, tText("i"), tText("for"))
 	f = append(f, cnt1...)
 	f = append(f, tNL)
-	f = append(f, vDatLine([]token{tText("i")}, []token{tNum(v1), tSym("+"), tText("i")})...)
 	deep := vParam("nested") == 2 // a third level inside the second
+	// the outer body may consist of the nested block only (then a block
+	// label names the first instruction the inner block writes)
+	outerDat := !(nested && vPick("outerDat", 0, 1) == 0)
+	if outerDat {
+		f = append(f, vDatLine([]token{tText("i")}, []token{tNum(v1), tSym("+"), tText("i")})...)
+	}
 	if nested || deep {
 		f = append(f, tText("j"), tText("for"), tNum(c2), tNL)
 		f = append(f, vDatLine([]token{tText("i")}, []token{tText("j")})...)
@@ -127,7 +105,7 @@ func VerifHarness_C08_family() {
 		if countForm >= 1 {
 			// (the label of an empty first block would become a second name of
 			// this EQU line: not a case the property speaks about)
-			vAssume(!(hasLabel && c1 == 0))
+			vAssume(!(hasLabel && (c1 == 0 || (!outerDat && c2 == 0))))
 			// the second block's count is an EQU defined between the blocks
 			f = append(f, tText("K3"), tText("equ"), tNum(c3), tNL)
 			f = append(f, tText("k"), tText("for"), tText("K3"), tNL)
@@ -165,11 +143,14 @@ func VerifHarness_C08_family() {
 		}
 	}
 	for i := 1; i <= c1; i++ {
-		label()
-		u = append(u, vDatLine([]token{tNum(i)}, []token{tNum(v1), tSym("+"), tNum(i)})...)
-		want = append(want, dat(i, v1+i))
+		if outerDat {
+			label()
+			u = append(u, vDatLine([]token{tNum(i)}, []token{tNum(v1), tSym("+"), tNum(i)})...)
+			want = append(want, dat(i, v1+i))
+		}
 		if nested || deep {
 			for j := 1; j <= c2; j++ {
+				label()
 				u = append(u, vDatLine([]token{tNum(i)}, []token{tNum(j)})...)
 				want = append(want, dat(i, j))
 				if deep {
